@@ -30,6 +30,11 @@ TABLE = {
  "legacy task.wait_until starts the state_hold_false period when the expression is false at the call": ("C05", "legacy task.wait_until(state_hold_false=0), expression false at the call, T at 2 s: never returned"),
  "unsubscribing a trigger removes its queue from every watched entity": ("C09", "function with @state_trigger(\"pyscript.a == '1' and pyscript.a.old == '0' and pyscript.b == '1'\"): after [define f, del f] a queue stayed registered under pyscript.b (for name sets whose iteration order visits pyscript.b after both names of pyscript.a)"),
  "@service accepts several service names in the new decorator subsystem": ("C12", "new subsystem: @service(\"test.s1\", \"test.s2\") registered nothing (validation rejected more than one argument); docs: multiple arguments register multiple names"),
+ "legacy task.wait_until releases its subscriptions on every exit path": ("C15", "legacy: task.wait_until(state_trigger=..., event_trigger='ev1') killed by task.cancel/task.unique while waiting: State.notify / Event.notify entries and the bus listener stayed registered"),
+ "'now' in a task.wait_until time_trigger stays the time of the call (legacy)": ("C15", "legacy: task.wait_until(time_trigger='once(now + 5s)', event_trigger=['ev1', 'arg == 1']) with a non-matching event at 2 s returned at 7 s instead of 5 s"),
+ "task.wait_until stops its triggers when the waiting task is cancelled": ("C15", "new subsystem: wait_until killed while waiting left bus listeners, state subscriptions, MQTT subscriptions and webhook handlers registered"),
+ "task.wait_until(timeout=0) times out immediately in the new subsystem": ("C15", "new subsystem: task.wait_until(event_trigger='ev1', timeout=0) never returned"),
+ "task.wait_until returns 'none' only when nothing but exhausted time triggers was given": ("C15", "new subsystem: task.wait_until(time_trigger='once(2020/1/1 00:00)', mqtt_trigger='t/a') returned trigger_type 'none' at once"),
 }
 log = subprocess.run(["git", "-C", "/repo", "log", "--reverse", "--format=%h %s"], capture_output=True, text=True).stdout.strip().split("\n")
 fixed = []
